@@ -104,6 +104,7 @@ MUTANTS = {
         ("global-default-builder", "tatsu/contexts/core.py", "        if not self.config.semantics and asmodel:\n            self.config.semantics = ModelBuilderSemantics()\n        self.semantics: type | None = config.semantics", "        if not self.config.semantics and asmodel:\n            self.config.semantics = globals().setdefault('_SHARED_BUILDER', ModelBuilderSemantics())\n        self.semantics: type | None = config.semantics", "caught-thorough-history"),
         ("revert-firstset-fix", "tatsu/peg/base.py", "self._firstset = self._first(k, self._rule_firstsets())", "self._firstset = self._first(k, defaultdict(set))", "caught"),
         ("synthesize-reads-its-base-from-the-registry", "tatsu/objectmodel/synth.py", "    if __synth_base not in bases:\n        bases = (*bases, __synth_base)\n", "    if SynthNode not in bases:\n        bases = (*bases, SynthNode)\n", "caught-thorough-history"),
+        ("find-rule-iterates-a-set", "tatsu/parsing.py", "    for rulename in (name, name.strip('_'), f'_{name}_', f'_{name}'):", "    for rulename in {name, name.strip('_'), f'_{name}_', f'_{name}'}:", "caught"),
         ("no-synth-lock", "tatsu/objectmodel/synth.py", "    with __registry_lock:\n", "    if True:\n", "caught-thorough"),
         ("no-optimize-lock", "tatsu/peg/base.py", "        with _optimize_lock:\n            if isinstance(self._optimized, Grammar):", "        if True:\n            if isinstance(self._optimized, Grammar):", "caught-thorough"),
         # negative controls
